@@ -174,7 +174,7 @@ Qed.
 Theorem entity_roots_closed (im : image) (ms : list client_method) ks r s k x :
   collect_refs im ms = Ok ks ->
   In r (im_roots im) -> lookup (im_schemas im) r = Some s -> In k (succs s) ->
-  present (im_schemas im) k -> reach (im_schemas im) k x -> present (im_schemas im) x ->
+  present (cenv (im_schemas im)) k -> reach (cenv (im_schemas im)) k x -> present (cenv (im_schemas im)) x ->
   In x ks.
 Proof.
   intros E Hr Hs Hk Hpk Hreach Hpx. unfold collect_refs in E.
@@ -191,7 +191,7 @@ Theorem chain_with_entities im anns api ms :
   add_structure (im_services im) {| sa_services := []; sa_topics := [] |} = Ok api ->
   wf_anns anns ->
   (forall es, walk_source_schemas anns = Ok es -> exists evs, omapM (entity_events (im_schemas im)) es = Ok evs) ->
-  all_refs_link (im_schemas im) = true -> wf_env (im_schemas im) ->
+  all_refs_link (im_schemas im) = true -> wf_env (im_schemas im) -> flat_free (im_schemas im) ->
   (forall es, walk_source_schemas anns = Ok es -> forall k, In k (entity_roots es) -> present (im_schemas im) k) ->
   methods_from_source true (with_roots im []) api = Ok ms ->
   Forall wf_client_method ms ->
@@ -207,14 +207,16 @@ Theorem chain_with_entities im anns api ms :
                     /\ present (im_schemas im) k /\ reach (im_schemas im) k x)
     /\ cr_swagger r = Ok tt.
 Proof.
-  intros Hsrc Hwa Hev Hl Hwf Hroots Hms Hwm Hmr. cbv zeta.
+  intros Hsrc Hwa Hev Hl Hwf Hff Hroots Hms Hwm Hmr. cbv zeta.
+  destruct (cenv_noflat _ Hff) as [Ec Ece].
   destruct (walk_source_schemas_total anns Hwa) as (es & Ees & _).
   destruct (Hev es Ees) as (evs & Eevs).
   unfold run_chain_ent. rewrite Ees. cbn [obind]. rewrite Eevs. cbn [omap obind].
   unfold run_client. rewrite Hsrc. cbn [obind cr_source cr_client cr_swagger current_config cc_walk_guard cc_arms cc_resp_guard].
+  cbn [with_roots im_schemas]. rewrite Ece, Ec.
   assert (Hms' : methods_from_source true (with_roots im (entity_roots es)) api = Ok ms) by exact Hms.
   rewrite Hms'. cbn [obind].
-  unfold collect_refs. cbn [with_roots im_schemas im_pkg im_roots].
+  unfold collect_refs. cbn [with_roots im_schemas im_pkg im_roots]. rewrite Ec.
   assert (Hall : forall k, In k (root_refs (im_schemas im) (entity_roots es) ++ flat_map method_roots ms) -> present (im_schemas im) k).
   { intros k Hk. apply in_app_or in Hk as [Hk|Hk]; [|exact (Hmr k Hk)].
     unfold root_refs in Hk. apply in_flat_map in Hk as (r & Hr & Hk).
@@ -249,3 +251,53 @@ Lemma ent_ex_anns_result :
   = Ok [ (ent_ex_pkg, bytes_of "WidgetKeys"); (ent_ex_pkg, bytes_of "WidgetState"); (ent_ex_pkg, bytes_of "WidgetEvent");
          (ent_ex_pkg, bytes_of "GadgetKeys"); (ent_ex_pkg, bytes_of "GadgetState"); (ent_ex_pkg, bytes_of "GadgetEvent") ].
 Proof. vm_compute. reflexivity. Qed.
+
+(* ---------- flattened object fields (ObjectSchema.ClientProperties) ----------------------------- *)
+(* the client properties of an object contain its own non-flattened properties and the client properties of
+   every object it flattens: what those refer to is walked as if the host referred to it *)
+Lemma client_props_keeps g : forall f ps cps p,
+  client_props (S f) g ps = Some cps -> In p ps -> is_flat (p_ty p) = None -> In p cps.
+Proof.
+  intros f. induction ps as [|q r IH]; intros cps p E Hin Hnf; [destruct Hin|].
+  cbn [client_props fold_right] in E.
+  change (fold_right _ (Some []) r) with (client_props (S f) g r) in E.
+  destruct (client_props (S f) g r) as [rest|] eqn:Er; [|discriminate].
+  destruct Hin as [<-|Hin].
+  - rewrite Hnf in E. injection E as <-. left; reflexivity.
+  - specialize (IH rest p eq_refl Hin Hnf).
+    destruct (is_flat (p_ty q)) as [k|]; [|injection E as <-; right; exact IH].
+    destruct (lookup g k) as [[qs|qs|]|]; try (injection E as <-; right; exact IH).
+    destruct (client_props f g qs) as [cs|]; [|discriminate]. cbn [option_map] in E. injection E as <-.
+    apply in_or_app. right. exact IH.
+Qed.
+
+Lemma client_props_flattens g : forall f ps cps p k qs cqs,
+  client_props (S f) g ps = Some cps -> In p ps -> is_flat (p_ty p) = Some k ->
+  lookup g k = Some (SObject qs) -> client_props f g qs = Some cqs -> incl cqs cps.
+Proof.
+  intros f. induction ps as [|q r IH]; intros cps p k qs cqs E Hin Hf Hl Eq; [destruct Hin|].
+  cbn [client_props fold_right] in E.
+  change (fold_right _ (Some []) r) with (client_props (S f) g r) in E.
+  destruct (client_props (S f) g r) as [rest|] eqn:Er; [|discriminate].
+  destruct Hin as [<-|Hin].
+  - rewrite Hf, Hl, Eq in E. cbn [option_map] in E. injection E as <-. intros x Hx. apply in_or_app. left. exact Hx.
+  - specialize (IH rest p k qs cqs eq_refl Hin Hf Hl Eq).
+    destruct (is_flat (p_ty q)) as [k'|]; [|injection E as <-; intros x Hx; right; exact (IH x Hx)].
+    destruct (lookup g k') as [[qs'|qs'|]|]; try (injection E as <-; intros x Hx; right; exact (IH x Hx)).
+    destruct (client_props f g qs') as [cs|]; [|discriminate]. cbn [option_map] in E. injection E as <-.
+    intros x Hx. apply in_or_app. right. exact (IH x Hx).
+Qed.
+
+(* the schema set is closed under the references of the schemas in it: whatever a collected schema's client
+   properties refer to (including through flattened fields) is collected too *)
+Theorem collected_closed (im : image) (ms : list client_method) ks h s c :
+  collect_refs im ms = Ok ks -> In h ks ->
+  lookup (cenv (im_schemas im)) h = Some s -> In c (succs s) -> present (cenv (im_schemas im)) c ->
+  In c ks.
+Proof.
+  intros E Hh Hs Hc Hp. unfold collect_refs in E.
+  pose proof (walk_refs_exact _ _ _ _ _ E) as X.
+  destruct (proj1 (X h) Hh) as (_ & k & Hk & Hpk & Hreach).
+  apply (X c). split; [exact Hp|]. exists k. split; [exact Hk|]. split; [exact Hpk|].
+  eapply reach_step; [exact Hreach|]. unfold edge. exists s. split; [exact Hs|exact Hc].
+Qed.
